@@ -540,7 +540,7 @@ var defects = map[string][]string{
 		"permissive-disagree-algorithm", "permissive-disagree-algorithm-material", "permissive-disagree-product-digest", "permissive-none",
 		"insp-named-like-last-step", "insp-named-like-first-step", "permissive-unclean-paths",
 		"permissive-sub-beside-link-disagree", "permissive-sub-beside-link-agree", "permissive-twin-sublayouts-disagree", "permissive-twin-sublayouts-agree",
-		"threshold1-disagree-large-link", "threshold1-foreign-signature-entry-0", "threshold1-foreign-signature-entry-1"},
+		"threshold1-disagree-large-link", "permissive-threshold1-foreign-signature-entry-0", "permissive-threshold1-foreign-signature-entry-1"},
 	"c06": {"sub-expired", "sub-undated", "sub-rfc3339-offset", "none", "expired-long", "expired-2s", "future-1h", "garbage", "empty", "rfc3339-offset", "date-only", "year-9999", "fraction", "lowercase"},
 	"c08": {"sub-insp-named-like-first-step", "sub-insp-named-like-last-step", "sub-defective-beside-good-link", "sub-ok", "sub-ok", "sub-badsig", "sub-expired", "sub-missing-link", "sub-rule-violation", "sub-unauthorised", "sub-nested", "sub-nested-defect", "sub-summary-mismatch"},
 	"c10": {"history-same-params", "history-diff-params", "history-no-params", "history-mixed", "mixed-cert-key", "mixed-cert-key", "mixed-cert-key-unsorted", "summary-byproducts", "direct-unclean",
@@ -655,7 +655,7 @@ func genScenario(r *lib.Rng, focus string, idx int) *Scn {
 		i := r.Intn(len(sc.Steps))
 		needTwo(i)
 		sc.DefectArg = strconv.Itoa(i) + ":" + strconv.Itoa(r.Intn(2)) // step index : which of the two links is altered
-		if strings.HasPrefix(d, "threshold1-foreign-signature-entry-") {
+		if strings.Contains(d, "threshold1-foreign-signature-entry-") {
 			sc.DefectArg = strconv.Itoa(i) + ":" + d[len(d)-1:]
 		}
 		if strings.HasPrefix(d, "permissive-") {
@@ -694,7 +694,7 @@ func genScenario(r *lib.Rng, focus string, idx int) *Scn {
 			st.Sub = sub
 			sc.Params = nil
 		}
-		if strings.HasPrefix(d, "threshold1-") {
+		if strings.Contains(d, "threshold1-") {
 			// more counted links than the threshold requires: they must still all agree
 			sc.Steps[i].Threshold = 1
 		}
@@ -1200,7 +1200,7 @@ func applyLinkDefects(sc *Scn, w *world, r *lib.Rng) {
 		ks := lib.SortedKeys(m)
 		return ks[len(ks)-1]
 	}
-	switch strings.TrimPrefix(strings.TrimPrefix(sc.Defect, "threshold1-"), "permissive-") {
+	switch strings.TrimPrefix(strings.TrimPrefix(sc.Defect, "permissive-"), "threshold1-") {
 	case "disagree-product-digest":
 		resign(func(l *intoto.Link) { l.Products[anyKey(l.Products)] = hobj("something else") })
 	case "disagree-algorithm-material":
